@@ -27,7 +27,7 @@ class Compiled:
         return self.program is not None
 
 
-def split_for_import(module, libname="callee_lib"):
+def split_for_import(module, libname="callee_lib", part="all"):
     """(library Module, main Module): the non-exported functions moved into a library that the rest imports.  None when
     the program cannot be cut that way (a helper touching a global or calling an exported function, structure types,
     no helper, helpers nobody else calls)."""
@@ -64,12 +64,45 @@ def split_for_import(module, libname="callee_lib"):
         walk(h.body, set())
     if bad:
         return None
+    if part != "all":
+        # only every other helper moves into the library (an overload set is then spread over the library and the importing
+        # module: one name, declarations on both sides); a moved helper must not call one that stays behind
+        moved = [h for i, h in enumerate(helpers) if i % 2 == (0 if part == "even" else 1)]
+        changed = True
+        while changed:
+            changed = False
+            names = {id(h) for h in moved}
+            for h in list(moved):
+                calls = []
+
+                def w2(n):
+                    if isinstance(n, Call) and n.fn is not None and not n.fn.exported and id(n.fn) not in names:
+                        calls.append(n.name)
+                    if isinstance(n, list):
+                        for x in n:
+                            w2(x)
+                    elif isinstance(n, N):
+                        for k in n.__slots__:
+                            if k == "fn":
+                                continue
+                            v = getattr(n, k)
+                            if isinstance(v, (N, list)):
+                                w2(v)
+                w2(h.body)
+                if calls:
+                    moved.remove(h)
+                    changed = True
+        if not moved or len(moved) == len(helpers):
+            return None
+        stay = [h for h in helpers if all(h is not m for m in moved)]
+        return Module(funcs=moved), Module(globals=list(module.globals), funcs=stay + rest, imports=[libname])
     return Module(funcs=helpers), Module(globals=list(module.globals), funcs=rest, imports=[libname])
 
 
 class CompiledSplit:
     """two sources: a library compiled and stored first, and a main module importing it by name, compiled next to it and
     linked through the filesystem loader (all inside a private directory)"""
+    _count = 0
 
     def __init__(self, lib_source, main_source, libname="callee_lib", optimize=False):
         import os
@@ -95,7 +128,15 @@ class CompiledSplit:
             if self.out.usable:
                 try:
                     with nslapi.quiet():
-                        self.program = nslapi.link([self.out.ir], loader=nslapi.LinearIR.FilesystemModuleLoader())
+                        # alternately a fresh loader and the linker's own default loader (one object per process, while
+                        # this process links many programs whose library has the same name)
+                        CompiledSplit._count += 1
+                        if CompiledSplit._count % 2:
+                            lk = nslapi.LinearIR.Linker()
+                            lk.AddModule(self.out.ir)
+                            self.program = lk.Link()
+                        else:
+                            self.program = nslapi.link([self.out.ir], loader=nslapi.LinearIR.FilesystemModuleLoader())
                 except Exception as e:
                     self.link_exc = nslapi.exc_info(e)
         finally:
